@@ -15,6 +15,7 @@
 """
 import os
 import gzip
+import re
 from typing import Any, Dict, List, Optional, Tuple
 
 from hypothesis import strategies as st
@@ -24,6 +25,7 @@ from vf.gens import http as G
 from vf.harness import k as K
 from vf.harness.peers import ReactiveOrigin
 from vf.refs import http_ref as H
+from vf.refs import chunk_ref
 
 ID = 'C06'
 LEVEL = 'exploration'
@@ -122,6 +124,15 @@ def check_input(c: Dict[str, Any]) -> Tuple[List[Any], Dict[str, Any]]:
     head = data.split(b'\r\n\r\n', 1)[0] if b'\r\n\r\n' in data else None
     if head is None or b'\n' in head.replace(b'\r\n', b''):
         ref_complete = False
+    if ref_complete and re.search(rb'(?im)^transfer-encoding[ \t]*:[^\r\n]*chunked', head or b''):
+        # the same leniency exists inside a chunked body (h11 takes a bare LF as the end of the trailer section): only a body
+        # that the strict RFC 7230 reference decoder completes is "definitely complete"
+        try:
+            done, _, _ = chunk_ref.decode(data.split(b'\r\n\r\n', 1)[1])
+        except ValueError:
+            done = False
+        if not done:
+            ref_complete = False
     nonutf8 = False
     try:
         data.split(b'\r\n\r\n', 1)[0].decode('utf-8')
